@@ -512,6 +512,53 @@ func checkNesting(w *world, c geneCase, model []span) *vlib.Failure {
 			return vlib.Failf("orientation-within", "OrientationWithin(transcript, ref level %d) = %d want %d (orientations %v)", i, got, want, oris)
 		}
 	}
+	// the same two functions asked of every level of the chain (gene, regions, chromosome), not
+	// only of the transcript: a level that is not orientable has no orientation, and the
+	// reference BaseOrientationOf hands back is the one its documentation names
+	for len(oris) < len(refs) {
+		oris = append(oris, 0) // the chromosome is not an Orienter
+	}
+	for i := 1; i < len(refs); i++ {
+		wantO, wantRef := 0, refs[len(refs)-1]
+		if oris[i] == 0 {
+			// "the reference will be the first orientable or last non-nil feature"
+			for j := i + 1; j < len(refs); j++ {
+				if oris[j] != 0 {
+					wantRef = refs[j]
+					break
+				}
+			}
+		} else {
+			wantO = 1
+			k := i
+			for ; k < len(refs) && oris[k] != 0; k++ {
+				wantO *= oris[k]
+			}
+			// "the first non-nil, non-orientable feature location", or the top of the chain
+			if k < len(refs) {
+				wantRef = refs[k]
+			}
+		}
+		gotO, gotRef := feat.BaseOrientationOf(refs[i])
+		if int(gotO) != wantO || gotRef != wantRef {
+			return vlib.Failf("base-orientation", "BaseOrientationOf(level %d) = %d, %v want %d, %v (orientations %v)", i, gotO, gotRef, wantO, wantRef, oris)
+		}
+		for j := i; j < len(refs); j++ {
+			want := 1
+			for k := i; k < j; k++ {
+				want *= oris[k]
+			}
+			if oris[i] == 0 {
+				want = 0
+			}
+			if got := feat.OrientationWithin(refs[i], refs[j]); int(got) != want {
+				return vlib.Failf("orientation-within", "OrientationWithin(level %d, level %d) = %d want %d (orientations %v)", i, j, got, want, oris)
+			}
+		}
+	}
+	if got := feat.OrientationWithin(w.t, nil); got != feat.NotOriented {
+		return vlib.Failf("orientation-within", "OrientationWithin(transcript, nil) = %d", got)
+	}
 	// 1-based / 0-based conversions
 	for _, v := range []int{c.Pos, -c.Pos, c.TOffset, c.GOffset - 7, 0, -1, 1} {
 		if got := feat.OneToZero(feat.ZeroToOne(v)); got != v {
